@@ -453,3 +453,40 @@ def hyp_search(check, strategy, seed, max_examples, shrink=True):
     except Violation:
         return holder["v"]
     return None
+
+
+# ----------------------------------------------------------------------------------------------
+# atheris glue (thorough tiers)
+
+
+def run_fuzz(target, ctx, runs, max_len=256, timeout=1500):
+    """Run one libFuzzer campaign of tfverif.fuzzdrv in a sub-process (fresh empty corpus, -seed from the shard seed).
+    Returns (stats dict or None if atheris is unavailable, Violation or None)."""
+    import subprocess
+
+    try:
+        import atheris  # noqa: F401
+    except Exception:
+        return None, None
+    out = ctx.fresh_dir()
+    corpus = os.path.join(out, "corpus")
+    os.makedirs(corpus)
+    cmd = [sys.executable, "-m", "tfverif.fuzzdrv", target, out, ",".join(sorted(ctx.known)), "-runs=%d" % runs, "-seed=%d" % (ctx.seed % (2**31 - 1) + 1),
+           "-max_len=%d" % max_len, "-artifact_prefix=%s/" % out, "-print_final_stats=1", corpus]
+    r = subprocess.run(cmd, cwd=VERIF, capture_output=True, text=True, timeout=timeout)
+    stats = None
+    sp = os.path.join(out, "stats.json")
+    if os.path.exists(sp):
+        stats = json.load(open(sp))
+    vp = os.path.join(out, "violation.json")
+    v = None
+    if os.path.exists(vp):
+        d = json.load(open(vp))
+        v = Violation(d["sub"], revive(d["case"]), "[atheris] " + d["message"])
+    elif r.returncode != 0:
+        raise HarnessError("fuzz campaign %s exited %d: %s" % (target, r.returncode, (r.stderr or "")[-800:]))
+    for line in (r.stderr or "").splitlines():
+        if line.startswith("stat::number_of_executed_units:") and stats is not None:
+            stats["execs"] = max(stats.get("execs", 0), int(line.split(":")[-1]))
+    shutil.rmtree(out, ignore_errors=True)
+    return stats or {"execs": 0, "distinct_nontrivial": 0}, v
